@@ -154,12 +154,15 @@ class Peer:
         """report an OS error the way the selector transport would (a Unix socketpair cannot produce
         ICMP errors): UDP -> protocol.error_received(exc); TCP -> transport._fatal_error -> connection_lost(exc)"""
         tr = self.transport
-        if tr is None or tr._protocol is None: return
+        if tr is None or tr._protocol is None or tr._closing or tr._sock is None: return     # the OS reports nothing on a closed socket
         exc = OSError(code, errno.errorcode.get(code, str(code)))
         if code == errno.ECONNREFUSED: exc = ConnectionRefusedError(code, 'Connection refused')
+        tracer = getattr(self.loop, 'tracer', None)
         if self.kind == 'udp':
+            if tracer is not None and tr._sock is not None and not tr._closing: tracer.external(('err', tracer.tid_of(tr)))
             self.loop.call_soon(self._do_error_received, tr, exc)
         else:
+            if tracer is not None and tr._sock is not None and not tr._closing: tracer.external(('fatal', tracer.tid_of(tr)))
             self.loop.call_soon(tr._force_close, exc)
 
     @staticmethod
